@@ -23,6 +23,10 @@ class MergeFail(Exception):
     pass
 
 
+class StopExploration(Exception):
+    """canary mode: the first obligation that is not discharged ends the run"""
+
+
 FEAS_TIMEOUT_MS = int(os.environ.get('PYVC_FEAS_MS', '1500'))
 PROVE_TIMEOUT_MS = int(os.environ.get('PYVC_PROVE_MS', '10000'))
 CLI_TIMEOUT_S = int(os.environ.get('PYVC_CLI_S', '20'))
@@ -172,6 +176,8 @@ class PathCtx(object):
                     ob.model = self.model_inputs(self._model_now())
             self.oblig.append(ob)
             if ob.status != 'discharged':
+                if os.environ.get('PYVC_STOP_ON_FAIL'):
+                    raise StopExploration()
                 raise PathAbort()
             return ob
         g = z3.simplify(goal)
@@ -197,7 +203,9 @@ class PathCtx(object):
                     st = 'failed?'     # model of a quantified problem: candidate only
             else:
                 st = 'unknown'
-            if st != 'failed':
+            if st != 'failed' and os.environ.get('PYVC_STOP_ON_FAIL'):
+                pass
+            elif st != 'failed':
                 smt2 = self.to_smt2(z3.Not(g))
                 r2, who = run_cli_portfolio(smt2)
                 if r2 == 'unsat':
@@ -215,6 +223,8 @@ class PathCtx(object):
         self.oblig.append(ob)
         if st == 'discharged':
             self.assume(g)
+        elif os.environ.get('PYVC_STOP_ON_FAIL'):
+            raise StopExploration()
         return ob
 
     def cover(self, cid, extra=True):
@@ -332,10 +342,16 @@ def explore(run_fn, label='', max_paths=20000):
         npaths += 1
         if npaths > max_paths:
             raise Undecided('path limit exceeded in %s' % label)
+        stop = False
         try:
             run_fn(ctx)
         except PathAbort:
             pass
+        except StopExploration:
+            stop = True
+        if stop:
+            obligs.extend(ctx.oblig)
+            break
         work.extend(ctx.alts)
         obligs.extend(ctx.oblig)
         covers.extend(ctx.covers)
